@@ -10,6 +10,10 @@
 #include <thread>
 #include <cstring>
 #include <cerrno>
+#include <sys/mman.h>
+#include <sys/stat.h>
+#include <zlib.h>
+#include <bzlib.h>
 using namespace pv;
 
 namespace {
@@ -107,6 +111,65 @@ static Reg r_zwriterand("z.writerand", [](const std::vector<std::string> &a) -> 
     }
   } catch (const std::exception &) { return "ERR:exception " + take_trace(); }
   return "ok " + path + " " + std::to_string(total) + " " + std::to_string(crc) + " " + take_trace();
+});
+
+// z.writehuge <gzip|bzip2> <n>: ONE write() call of n bytes (n may exceed 2^32: the sizes at which zlib's 32-bit avail_in wraps) from a
+// lazily committed mapping (NUL everywhere, a marker byte every 1048573 bytes) through the real WriteCompressed into a file; the
+// file is then expanded with zlib's own gzread (gzip) or libbz2's BZ2_bzread (bzip2) and compared byte for byte.
+//   -> ok <n> <compressed size>   |  FAIL expanded <k> of <n> [first wrong byte at <p>]
+static Reg r_zwritehuge("z.writehuge", [](const std::vector<std::string> &a) -> std::string {
+  if (a.size() != 2) return "bad-op";
+  bool gz = a[0] == "gzip";
+  unsigned long long n = strtoull(a[1].c_str(), NULL, 10);
+  if (!n) return "bad-op";
+  size_t maplen = ((n + 4095) / 4096 + 1) * 4096;
+  void *m = mmap(NULL, maplen, PROT_READ | PROT_WRITE, MAP_PRIVATE | MAP_ANONYMOUS | MAP_NORESERVE, -1, 0);
+  if (m == MAP_FAILED) return "skipped:mmap";
+  unsigned char *p = static_cast<unsigned char*>(m);
+  for (unsigned long long q = 0; q < n; q += 1048573ull) p[q] = (unsigned char)((q / 1048573ull) % 251 + 1);
+  const char *tmpdir = getenv("PV_TMP") ? getenv("PV_TMP") : "/verif/.cache/tmp";
+  std::string path = std::string(tmpdir) + "/pvzhuge-" + a[0] + "-" + a[1];
+  int fd = open(path.c_str(), O_CREAT | O_TRUNC | O_WRONLY, 0644);
+  if (fd < 0) { munmap(m, maplen); return "ERR:open"; }
+  take_trace();
+  std::string res;
+  try {
+    {
+      util::WriteCompressed w(fd, gz ? util::WriteCompressed::GZIP : util::WriteCompressed::BZIP);
+      w.write(p, n);
+    }
+    take_trace();
+    munmap(m, maplen);
+    m = NULL;
+    struct stat st;
+    stat(path.c_str(), &st);
+    std::vector<unsigned char> buf(1 << 20);
+    unsigned long long got = 0, wrong = ~0ull;
+    auto scan = [&](int k) {
+      for (int i = 0; i < k; ++i) {
+        unsigned long long q = got + i;
+        unsigned char want = q % 1048573ull == 0 ? (unsigned char)((q / 1048573ull) % 251 + 1) : 0;
+        if (buf[i] != want && wrong == ~0ull) wrong = q;
+      }
+      got += k;
+    };
+    if (gz) {
+      gzFile f = gzopen(path.c_str(), "rb");
+      int k;
+      while (f && (k = gzread(f, buf.data(), buf.size())) > 0) scan(k);
+      if (f) gzclose(f);
+    } else {
+      BZFILE *f = BZ2_bzopen(path.c_str(), "rb");
+      int k;
+      while (f && (k = BZ2_bzread(f, buf.data(), buf.size())) > 0) scan(k);
+      if (f) BZ2_bzclose(f);
+    }
+    if (got == n && wrong == ~0ull) res = "ok " + std::to_string(n) + " " + std::to_string((unsigned long long)st.st_size);
+    else res = "FAIL expanded " + std::to_string(got) + " of " + std::to_string(n) + (wrong != ~0ull ? " first wrong byte at " + std::to_string(wrong) : "");
+  } catch (const std::exception &) { res = "ERR:exception"; }
+  if (m) munmap(m, maplen);
+  unlink(path.c_str());
+  return res;
 });
 
 // z.gzcompressrand <seed> <count> <minlen> <maxlen>: GZCompress on <count> pseudo-random semi-compressible bodies (words from a
